@@ -243,6 +243,9 @@ struct Node {
     // "-closed" roles start with the receiving ends already dropped by the application
     chan: Arc<std::sync::Mutex<Option<std::sync::mpsc::Sender<InstanceInformation>>>>,
     achan: Arc<std::sync::Mutex<Option<tokio::sync::mpsc::Sender<InstanceInformation>>>>,
+    // ... and the "-chan" roles keep theirs open (the application drains them)
+    live: Arc<std::sync::Mutex<(Option<std::sync::mpsc::Sender<InstanceInformation>>, std::sync::mpsc::Receiver<InstanceInformation>)>>,
+    alive: Arc<std::sync::Mutex<(Option<tokio::sync::mpsc::Sender<InstanceInformation>>, tokio::sync::mpsc::Receiver<InstanceInformation>)>>,
 }
 
 fn new_node() -> Node {
@@ -257,7 +260,10 @@ fn new_node() -> Node {
     // receivers dropped at once: the application lost interest in notifications
     let (tx, _) = std::sync::mpsc::channel();
     let (atx, _) = tokio::sync::mpsc::channel(4);
-    Node { store: Arc::new(RwLock::new(store)), service, full, chan: Arc::new(std::sync::Mutex::new(Some(tx))), achan: Arc::new(std::sync::Mutex::new(Some(atx))) }
+    let (ltx, lrx) = std::sync::mpsc::channel();
+    let (latx, larx) = tokio::sync::mpsc::channel(64);
+    Node { store: Arc::new(RwLock::new(store)), service, full, chan: Arc::new(std::sync::Mutex::new(Some(tx))), achan: Arc::new(std::sync::Mutex::new(Some(atx))),
+        live: Arc::new(std::sync::Mutex::new((Some(ltx), lrx))), alive: Arc::new(std::sync::Mutex::new((Some(latx), larx))) }
 }
 
 thread_local! {
@@ -319,7 +325,31 @@ fn handle(node: &Node, role: &str, d: &[u8]) -> Value {
             Ok(Ok(r)) => r,
             _ => break 'pipeline,
         };
-        if is_response && role == "discovery-closed" {
+        if is_response && role == "discovery-chan" {
+            let store = node.store.clone();
+            let live = node.live.clone();
+            let (service, full) = (node.service.clone(), node.full.clone());
+            let r = guarded(move || {
+                let packet = Packet::parse(d).unwrap();
+                let mut guard = store.write().unwrap();
+                let mut l = live.lock().unwrap_or_else(|e| e.into_inner());
+                add_response_to_resources(packet, &service, &full, &mut guard, &mut l.0);
+                while l.1.try_recv().is_ok() {}
+            });
+            steps.push(json!(["ingest-with-channel", outcome_of(&r)]));
+        } else if is_response && role == "discovery-async-chan" {
+            let store = node.store.clone();
+            let live = node.alive.clone();
+            let (service, full) = (node.service.clone(), node.full.clone());
+            let r = guarded(move || {
+                let packet = Packet::parse(d).unwrap();
+                let mut guard = store.write().unwrap();
+                let mut l = live.lock().unwrap_or_else(|e| e.into_inner());
+                ASYNC_RT.with(|rt| rt.block_on(simple_mdns::verif::add_response_to_resources_async(packet, &service, &full, &mut guard, &mut l.0)));
+                while l.1.try_recv().is_ok() {}
+            });
+            steps.push(json!(["ingest-async-with-channel", outcome_of(&r)]));
+        } else if is_response && role == "discovery-closed" {
             let store = node.store.clone();
             let chan = node.chan.clone();
             let (service, full) = (node.service.clone(), node.full.clone());
@@ -378,7 +408,8 @@ fn handle(node: &Node, role: &str, d: &[u8]) -> Value {
     let usable = guarded(|| {
         let store = node.store.clone();
         let n = match store.read() {
-            Ok(g) => g.get_domain_resources(&node.service, DomainResourceFilter::all()).count(),
+            // (what get_known_services() does with the store)
+            Ok(g) => g.get_domain_resources(&node.service, DomainResourceFilter::cached()).filter_map(|rs| from_records(&node.service, rs)).count(),
             Err(_) => return false,
         };
         let _ = n;
@@ -440,7 +471,21 @@ pub fn run_datagram(a: &Args) {
     grams.push(("valid query".into(), valid_query.clone()));
     grams.push(("valid srv query".into(), srv_query.clone()));
     grams.push(("valid response".into(), valid_response.clone()));
-    for label in [vec![0xFFu8], vec![0xC3], vec![0x00], vec![b'.'], vec![b'\\'], vec![0xFF; 63], vec![b'a'; 63], b"me".to_vec(), vec![0xE9, 0x80]] {
+    let mut hostile_labels: Vec<Vec<u8>> = vec![vec![0xFFu8], vec![0xC3], vec![0x00], vec![b'.'], vec![b'\\'], vec![0xFF; 63], vec![b'a'; 63], b"me".to_vec(), vec![0xE9, 0x80]];
+    // labels whose text rendering is longer than the label (every invalid byte becomes a 3-byte replacement
+    // character, e-acute is 2 bytes, an emoji 4) behind 0..3 ASCII bytes: every alignment of char boundaries
+    // against any byte limit a consumer of the rendered name may apply
+    for pre in 0..4usize {
+        for (unit, count) in [(&[0xFFu8][..], 20usize), (&[0xFF][..], 39), (&[0xFF][..], 59), (&[0xC3, 0xA9][..], 29), (&[0xF0, 0x9F, 0x98, 0x80][..], 14)] {
+            let mut l = vec![b'a'; pre];
+            for _ in 0..count {
+                l.extend_from_slice(unit);
+            }
+            l.truncate(63);
+            hostile_labels.push(l);
+        }
+    }
+    for label in hostile_labels {
         grams.push(("hostile-name response".into(), hostile_label_response(&label, true)));
         grams.push(("hostile-name response (not under service)".into(), hostile_label_response(&label, false)));
         grams.push(("hostile-name query".into(), hostile_label_query(&label)));
@@ -488,11 +533,11 @@ pub fn run_datagram(a: &Args) {
         grams.push(("random".into(), b));
     }
     // sessions: hostile datagrams interleaved with valid traffic, against one node per role
-    for role in ["responder", "discovery", "discovery-async", "resolver", "discovery-closed", "discovery-async-closed"] {
+    for role in ["responder", "discovery", "discovery-async", "resolver", "discovery-closed", "discovery-async-closed", "discovery-chan", "discovery-async-chan"] {
         let node = new_node();
         for (i, (cls, d)) in grams.iter().enumerate() {
             // the closed-channel listeners only differ on responses that carry records of the watched service
-            if role.ends_with("-closed") && !(cls.starts_with("valid") || cls.starts_with("hostile") || i % 10 == 0) {
+            if (role.ends_with("-closed") || role.ends_with("-chan")) && !(cls.starts_with("valid") || cls.starts_with("hostile") || i % 10 == 0) {
                 continue;
             }
             let mut e = handle(&node, role, d);
